@@ -366,7 +366,11 @@ MAINLOOP:
 		switch t := parseErr.(type) {
 		case nil:
 			// no error, report upward
-			args.ReportNewValue(ctx, newVal)
+			if reportErr := args.ReportNewValue(ctx, newVal); reportErr != nil {
+				// a wrapping WatchArgs may refuse the value (e.g. it fails
+				// to reverse-translate): that makes this content invalid.
+				args.ReportError(ctx, reportErr)
+			}
 
 		case *unchangedCSumErr:
 			// Same contents, ignore the new value.
